@@ -265,6 +265,44 @@ Theorem C15_gs_stop_fixed :
 Proof. exact gs_stop_fixed. Qed.
 Print Assumptions C15_gs_stop_fixed.
 
+(* [core, partial] GerchbergSaxton with a Tikhonov term, lamb > 0 (proofs/StoppingGS.v).  A / A^H an adjoint pair for the real
+   inner product of C^m (cdot), unit phases.  If the update that triggered the stop had a CONVERGED inner ConjugateGradient
+   (its result solves (A^H A + lamb) x' = A^H y_hat -- always the case in dimension <= 5 by C12's finite termination, otherwise
+   a hypothesis: that is what makes this statement partial), then matched amplitudes force x' = 0, and 0 is a fixed point of the
+   whole update: with lamb > 0 an early stop after a converged update happens only at the trivial fixed point.  Not covered:
+   a stop after a NON-converged inner solve (5 CG steps in dimension > 5) -- validated by the oracle only. *)
+From SV Require Import proofs.StoppingGS.
+Theorem C15_gs_tikhonov_stop_fixed_partial :
+  forall (H : IPSpace) (cphase : R * R -> R * R) (A : ipV H -> list (R * R)) (AH : list (R * R) -> ipV H)
+         (y : list R) (lamb : R),
+    (forall v, length (A v) = length y) ->
+    (forall w, cscale (ops_of H) (cabs (ops_of H) w) (cphase w) = w) ->
+    (forall w, cabs (ops_of H) (cphase w) = 1) ->
+    (forall v w, length w = length y -> ipdot H v (AH w) = cdot (A v) w) ->
+    forall s : gs_state (ops_of H),
+      let C := GSClass (ops_of H) Rabs cphase A AH y lamb in
+      0 < lamb ->
+      (gs_system (ops_of H) A AH lamb (gs_x (update C s)) = gs_b (ops_of H) cphase A AH y (gs_x s)) ->
+      gs_residual (update C s) <= 0 ->
+      gs_x (update C s) = ip0 H /\
+      gs_x (update C (update C s)) = gs_x (update C s) /\
+      gs_residual (update C (update C s)) = gs_residual (update C s).
+Proof. exact gs_tikhonov_stop_fixed. Qed.
+Print Assumptions C15_gs_tikhonov_stop_fixed_partial.
+
+(* the real inner product used above, spelled out: Re <u, v> = sum_i (re u_i re v_i + im u_i im v_i) *)
+Theorem C15_cdot_unfold : forall a b u v, cdot (a :: u) (b :: v) = fst a * fst b + snd a * snd b + cdot u v.
+Proof. exact (fun a b u v => eq_refl). Qed.
+
+(* non-vacuity of the structural hypotheses (R^2 = C observed through the identity, numpy's unit phase) *)
+Example C15_gs_tikhonov_hypotheses_satisfiable :
+  (forall v, length (A1 v) = length [0]) /\
+  (forall w, cscale (ops_of R2Space) (cabs (ops_of R2Space) w) (cphaseR w) = w) /\
+  (forall w, cabs (ops_of R2Space) (cphaseR w) = 1) /\
+  (forall v w, length w = length [0] -> ipdot R2Space v (AH1 w) = cdot (A1 v) w).
+Proof. exact gs_tikhonov_hyps_example. Qed.
+Print Assumptions C15_gs_tikhonov_hypotheses_satisfiable.
+
 (* [core] PDHG with array-valued step sizes.  [EltOps H] = elementwise *, /, **0.5 on the arrays of H with
    "every entry > 0" ([epos]) such that d / t**0.5 = 0 forces d = 0 for positive t, and positivity is kept by
    multiplying / dividing by a positive scalar (instances: R, products, R^n -- C15_array_steps_satisfiable).
